@@ -270,7 +270,11 @@ func oneLine(s string) string {
 
 func writeReplay(prop, check string, v *Violation) string {
 	h := sha1.Sum([]byte(v.Key))
-	dir := filepath.Join(ReplayDir, prop)
+	base := ReplayDir
+	if d := os.Getenv("VERIF_REPLAY_DIR"); d != "" {
+		base = d // scratch runs against seeded changes keep their artefacts out of /verif/replays
+	}
+	dir := filepath.Join(base, prop)
 	os.MkdirAll(dir, 0o755)
 	path := filepath.Join(dir, check+"-"+hex.EncodeToString(h[:6])+".json")
 	b, _ := json.MarshalIndent(map[string]any{"property": prop, "check": check, "key": v.Key, "desc": v.Desc, "replay": v.Replay}, "", " ")
